@@ -451,15 +451,14 @@ Definition times_named_zero (ws : list pwarn) : Prop := forall k, times_named k 
 Definition conv_arg (sg : dsig) (name value : str) : option str :=
   if opt_is_flag sg name then None else if nonempty value then Some value else None.
 
-Inductive verdict := Kept (c : str) | Invalid | Unknown | Escapes (e : exn).
+Inductive verdict := Kept (c : str) | Invalid | Unknown.
 
 (* what becomes of one (name, value) pair of the merged options *)
 Definition judge (sg : dsig) (name value : str) : verdict :=
   if negb (opt_known sg name) then Unknown
   else match opt_conv sg name (conv_arg sg name value) with
        | Ok c => Kept c
-       | Raise ValueError | Raise TypeError => Invalid
-       | Raise e => Escapes e
+       | Raise _ => Invalid
        end.
 
 Definition kept_of (sg : dsig) (opts : list (str * str)) : list (str * str) :=
@@ -471,37 +470,38 @@ Definition unknown_of (sg : dsig) (opts : list (str * str)) : list str :=
 
 Lemma validate_loop_cons sg line k v opts :
   validate_loop sg line ((k, v) :: opts) =
-  match judge sg k v with
-  | Escapes e => Raise e
-  | j => do r <- validate_loop sg line opts;
-         let '(no, ve, un) := r in
-         Ok (match j with Kept c => (k, c) :: no | _ => no end,
-             match j with Invalid => W_invalid k line :: ve | _ => ve end,
-             match j with Unknown => k :: un | _ => un end)
-  end.
+  do r <- validate_loop sg line opts;
+  let '(no, ve, un) := r in
+  Ok (match judge sg k v with Kept c => (k, c) :: no | _ => no end,
+      match judge sg k v with Invalid => W_invalid k line :: ve | _ => ve end,
+      match judge sg k v with Unknown => k :: un | _ => un end).
 Proof.
   cbn [validate_loop]. unfold judge, conv_arg.
   destruct (opt_known sg k); cbn [negb].
-  - destruct (opt_conv sg k (if opt_is_flag sg k then None else if nonempty v then Some v else None)) as [c|e].
-    + destruct (validate_loop sg line opts) as [[[no ve] un]|]; reflexivity.
-    + destruct e; try reflexivity; destruct (validate_loop sg line opts) as [[[no ve] un]|]; reflexivity.
+  - destruct (opt_conv sg k (if opt_is_flag sg k then None else if nonempty v then Some v else None)) as [c|e];
+      destruct (validate_loop sg line opts) as [[[no ve] un]|]; reflexivity.
   - destruct (validate_loop sg line opts) as [[[no ve] un]|]; reflexivity.
 Qed.
 
 Lemma validate_loop_spec sg line opts : forall no ve un,
   validate_loop sg line opts = Ok (no, ve, un) ->
-  no = kept_of sg opts /\ ve = invalid_of sg line opts /\ un = unknown_of sg opts /\
-  (forall k v, In (k, v) opts -> forall e, judge sg k v <> Escapes e).
+  no = kept_of sg opts /\ ve = invalid_of sg line opts /\ un = unknown_of sg opts.
 Proof.
   induction opts as [|[k v] opts IH]; intros no ve un H.
-  - cbn [validate_loop] in H. inv H. repeat split. intros k v [].
+  - cbn [validate_loop] in H. inv H. repeat split.
   - rewrite validate_loop_cons in H.
     unfold kept_of, invalid_of, unknown_of. cbn [flat_map fst snd].
     fold (kept_of sg opts). fold (invalid_of sg line opts). fold (unknown_of sg opts).
-    destruct (judge sg k v) eqn:Ej; try discriminate;
-      apply bind_ok in H as [[[no' ve'] un'] [H1 H]]; inv H;
-      destruct (IH _ _ _ H1) as [A [B [C D]]]; subst; repeat split;
-      intros k' v' [E|E] e; try (apply D; exact E); inv E; rewrite Ej; discriminate.
+    apply bind_ok in H as [[[no' ve'] un'] [H1 H]]. inv H.
+    destruct (IH _ _ _ H1) as [A [B C]]. subst.
+    destruct (judge sg k v); repeat split.
+Qed.
+
+(* the validation loop never raises *)
+Lemma validate_loop_total sg line opts : exists r, validate_loop sg line opts = Ok r.
+Proof.
+  induction opts as [|[k v] opts [[[no ve] un] IH]]; [eexists; reflexivity|].
+  rewrite validate_loop_cons, IH. eexists. reflexivity.
 Qed.
 
 (* ---------- counting names ---------- *)
@@ -541,7 +541,7 @@ Qed.
 (* with distinct keys: a key is named once iff it is dropped *)
 Lemma named_once sg line opts : NoDup (map fst opts) -> forall k v, In (k, v) opts ->
   (count_str k (flat_map names_of (invalid_of sg line opts)) + count_str k (unknown_of sg opts))%nat =
-  match judge sg k v with Kept _ => O | Escapes _ => O | _ => 1%nat end.
+  match judge sg k v with Kept _ => O | _ => 1%nat end.
 Proof.
   induction opts as [|[k' v'] opts IH]; intros Hnd k v Hin; [destruct Hin|].
   cbn [map fst] in Hnd. inv Hnd.
@@ -702,7 +702,7 @@ Proof.
     apply bind_ok in H as [[[no ve] un] [H1 H]]. inv H. cbn [o_options o_warnings].
     change (match add with Some (a :: l) => dict_update (dict_of (a :: l)) (dict_of items) | _ => dict_of items end)
       with (merged_options items add) in H1.
-    destruct (validate_loop_spec _ _ _ _ _ _ H1) as [A [B [C D]]]. subst no ve un.
+    destruct (validate_loop_spec _ _ _ _ _ _ H1) as [A [B C]]. subst no ve un.
     pose proof (merged_nodup items add) as Hnd.
     assert (Hcount : forall k,
       times_named k (if nonempty (unknown_of sg (merged_options items add))
@@ -716,8 +716,7 @@ Proof.
       - rewrite !times_named_app, (Hw0 k). unfold times_named at 2. cbn [flat_map names_of app].
         rewrite app_nil_r. rewrite (count_str_perm k _ _ (sorted_strs_perm (u :: us))). unfold times_named. lia. }
     split; [reflexivity|]. split.
-    - intros k v Hin. rewrite Hcount, (named_once sg l' _ Hnd k v Hin).
-      pose proof (D k v Hin) as Hne. destruct (judge sg k v); try reflexivity. exfalso. eapply Hne. reflexivity.
+    - intros k v Hin. rewrite Hcount, (named_once sg l' _ Hnd k v Hin). reflexivity.
     - intros k Hk. rewrite Hcount.
       destruct (names_invalid_unknown_notin sg l' _ k Hk) as [X Y]. rewrite X, Y. reflexivity. }
   destruct b as [blk|].
